@@ -109,6 +109,8 @@ def find_unit_obj(p, u):
         return by_name(p.modules, u["name"])
     if u["kind"] == "program":
         return by_name(p.programs, u["name"])
+    if u["kind"] == "blockdata":
+        return by_name(p.blockdata, u["name"])
     return next((x for x in p.procedures if str(x.name).lower() == u["name"].lower() and x.parobj == "sourcefile"), None)
 
 
